@@ -5,7 +5,7 @@ import ast
 
 from ..absval import Undecided, eval_expr
 from ..cfg import CFG, EXIT, RAISE
-from ..core import (AnalysisError, call_name, dotted, is_const, kwarg, local_defs, norm, origin,
+from ..core import (AnalysisError, alpha, call_name, dotted, is_const, kwarg, local_defs, norm, origin,
                     parent_map, walk_local)
 from ..facts import guards_of, returns_of, enclosing_loops
 from ..rules import matcher as M
@@ -39,7 +39,48 @@ META = {
 STRATS = ["_find_all_subgraph_mappings", "_find_component_aware_subgraph_mappings", "_find_bt_subgraph_mappings"]
 
 
+def grouping(rep):
+    """classes of atoms built with itertools.groupby must come from an input sorted by the same key (otherwise a class is split into runs)"""
+    from ..rules.grouping import unsorted_groupby
+    n = 0
+    for q, fi in rep.repo.module(SM).funcs.items():
+        if ".<locals>." in q:
+            continue
+        bad = unsorted_groupby(fi.node)
+        if bad or any(isinstance(c, ast.Call) and norm(c.func) in ("groupby", "itertools.groupby") for c in walk_local(fi.node, into_nested=True)):
+            n += 1
+            rep.touch(fi)
+            rep.ob("O6.5", "SHAPE", fi, not bad, alpha(bad[0][0], fi.node) if bad else "groupby over a sorted input", "candidate classes are complete: " +
+                   (bad[0][1] + "; atoms of one label that are not adjacent in insertion order fall into separate runs and the later run replaces the earlier" if bad else "groupby input sorted by its key"),
+                   node=bad[0][0] if bad else fi.node)
+    rep.extra["groupby_sites_in_subgraph_matcher"] = n
+
+
+def threshold_tests(rep):
+    """inside the search strategies the enumeration threshold is compared with the number of results actually collected (`len(<list>)`);
+    a test against an estimate (a product of candidate counts over-counts: it ignores the distinct-component constraint) empties result sets
+    that are within the threshold.  (The optional Cartesian pre-filter `_quick_pre_filter` is an estimate by design and is not a strategy.)"""
+    n = 0
+    for q in STRATS:
+        fi = rep.f(SM, ENG + q)
+        thr = [p_ for p_ in fi.params if p_ in ("threshold", "thresh")]
+        if not thr:
+            continue
+        T = thr[0]
+        for cmp_ in [c for c in walk_local(fi.node, into_nested=True) if isinstance(c, ast.Compare) and len(c.ops) == 1]:
+            sides = [cmp_.left, cmp_.comparators[0]]
+            if not any(isinstance(x, ast.Name) and x.id == T for x in sides):
+                continue
+            other = [x for x in sides if not (isinstance(x, ast.Name) and x.id == T)][0]
+            n += 1
+            ok = pmatch("len($x)", other) is not None
+            rep.ob("O6.5", "SHAPE", fi, ok, alpha(cmp_, fi.node), "the threshold is compared with the number of results collected so far, not with an estimate of it", node=cmp_)
+    rep.need("SHAPE", n, 3, "threshold comparisons in the search strategies")
+
+
 def run(rep):
+    rep.run(grouping)
+    rep.run(threshold_tests)
     rep.run(nonmut)
     rep.run(predicates_and_roles)
     rep.run(component_aware)
